@@ -126,9 +126,19 @@ def generic_nt(obj):
     return False
 
 
+def seeded(call, case):
+    """Functions drawing random numbers (randomised PIT in alpha) see a
+    stream that depends on the case only: a saved case replays identically."""
+    import json
+    import zlib
+    np.random.seed(zlib.crc32(json.dumps(case, sort_keys=True,
+                                         default=str).encode()))
+    call(case)
+
+
 def make_oracle(call):
     def oracle(case):
-        res = forked(lambda: call(case))
+        res = forked(lambda: seeded(call, case))
         if res == "TIMEOUT":
             return {"nt": False, "labels": ["timeout:inconclusive"]}
         if res is not None:
@@ -882,7 +892,7 @@ def large_oracle(case):
     global TIMEOUT
     old, TIMEOUT = TIMEOUT, 240
     try:
-        res = forked(lambda: large_call(case))
+        res = forked(lambda: seeded(large_call, case))
     finally:
         TIMEOUT = old
     if res == "TIMEOUT":
